@@ -988,7 +988,20 @@ var vrtIntrinsics = map[string]intrinsicFn{
 		return nil
 	},
 	"FootprintEnd": func(ex *Exec, _ *ssa.Function, a []Value, _ ssa.Instruction) Value {
-		allow := strings.Split(a[0].(string), ",")
+		spec := a[0].(string)
+		var allow, only []string
+		if strings.Contains(spec, "=") {
+			for _, part := range strings.Split(spec, ";") {
+				k, v, _ := strings.Cut(part, "=")
+				if k == "allow" {
+					allow = strings.Split(v, ",")
+				} else if k == "only" {
+					only = strings.Split(v, ",")
+				}
+			}
+		} else {
+			allow = strings.Split(spec, ",")
+		}
 		fp := ex.fps[len(ex.fps)-1]
 		ex.fps = ex.fps[:len(ex.fps)-1]
 		n := int64(0)
@@ -1000,6 +1013,15 @@ var vrtIntrinsics = map[string]intrinsicFn{
 			for _, al := range allow {
 				if al != "" && strings.HasPrefix(w, al+"@") {
 					ok = true
+				}
+			}
+			if len(only) > 0 && !ok {
+				// only writes to the listed kinds of location count (e.g. a tensor's data / dims / context)
+				ok = true
+				for _, on := range only {
+					if on != "" && strings.HasPrefix(w, on+"@") {
+						ok = false
+					}
 				}
 			}
 			if !ok {
